@@ -109,6 +109,12 @@ func canonicalList(dst *Segment, l List) (List, error) {
 		}
 		end, _ := l.off.addSize(sz) // list was already validated
 		copy(dst.data[newAddr:], l.seg.data[l.off:end])
+		if rem := uint(l.length) % 8; l.flags&isBitList != 0 && rem != 0 {
+			// Padding must be zero in canonical form: clear the unused
+			// bits of the last byte of a bit list.
+			last := newAddr.addSizeUnchecked(sz - 1)
+			dst.data[last] &= 1<<rem - 1
+		}
 		return cl, nil
 	}
 	if l.flags&isCompositeList == 0 {
